@@ -22,6 +22,7 @@ VERUS_UNITS = {
     "adapters": ("units_adapters", ["C02", "C14", "C11", "C18"]),
     "gpu": ("units_gpu", ["C01", "C06", "C10"]),
     "daemon": ("units_daemon", ["C16"]),
+    "compat": ("units_compat", ["C03"]),
 }
 # units in which a lock guard is encoded as a `&mut` borrow of its owner (rule R8)
 R8_UNITS = ("frontend", "proxy", "gpu")
